@@ -221,17 +221,21 @@ OVERRIDES = {
          "JSON) are excluded by predicate; three defects fixed (inline vs by-name named types, named kinds matched by name alone, "
          "named-type reporting crash). Trusted: z3, pyvc translator, stream model; reader schemas are arbitrary values (no assumption)."),
    technique="contract-based deductive verification of stream alignment under resolution (every reader, exceptional exits allowed) and of the promotion / enum-default helpers; bounded differential checking against an executable resolution oracle"),
- "C16": dict(cat="exploration", design="0.3, 0.16, 7/C16",
-   text=("Bounded stand-in (labelled bounded, never counted as proved): dates, times, timestamps (aware with offsets, local), uuid, "
-         "bytes- and fixed-decimals against independent arithmetic over boundary and random values. Deductive pieces only, for date, "
-         "time-millis and time-micros: prepare_date / prepare_time_millis / prepare_time_micros return exactly the integer the "
-         "specification prescribes (days from 1970-01-01; milli- / microseconds after midnight, microseconds truncated) and pass every "
-         "other value on unchanged; read_date / read_time_millis / read_time_micros build, for EVERY value of the stored domain, the "
-         "date / time of day with exactly those components; four arithmetic lemmas: the stored value of every time of day lies in the "
-         "reader's domain and is read back with the same components (truncated), and every stored value is the image of what it is read as. "
-         "Timestamps, uuid and decimals have no contract. Level therefore exploration."),
-   note="Assumed (cross-checked by `vcheck axioms`): calendar objects through observer functions (hour, minute, second, microsecond, toordinal) with their library ranges; constructor contracts datetime.time(...) and date.fromordinal(...); int(a / b) == a // b below 2**52.",
-   technique="bounded differential checking against independent calendar / decimal arithmetic; contract-based deductive verification of the date and time-of-day converters"),
+ "C16": dict(cat="other", design="0.3, 0.16, 7/C16",
+   text=("Deductive, for date, time-millis, time-micros, the four timestamp types and the two decimal writers (15 of the 20 converter "
+         "functions): prepare_date / prepare_time_* return exactly the integer the specification prescribes (days from 1970-01-01; "
+         "units after midnight, truncated) and the readers build, for EVERY value of the stored domain, the object with exactly those "
+         "components (four arithmetic round-trip lemmas); prepare_timestamp_* store the whole units from the UTC epoch to the instant of "
+         "an aware datetime with any offset before or after the epoch (floor), the local variants the units to the wall-clock reading of a "
+         "naive one, and read_*timestamp_* return the datetime of exactly that instant, in UTC / naive; prepare_bytes_decimal / "
+         "prepare_fixed_decimal return the big-endian two's complement of the unscaled integer (-1)**sign * digits * 10**(exponent+scale) "
+         "-- minimal length for bytes, exactly the declared size for fixed -- and raise ValueError exactly when the digits exceed the "
+         "precision, the fractional digits the scale, or the integer the size (lemmas about padding with zeros and powers). Every value "
+         "that is not of the logical type's class is passed on unchanged. Not deductive: read_decimal (decimal contexts), uuid, naive "
+         "datetimes under the timestamp types (mktime), the dispatch through LOGICAL_WRITERS / LOGICAL_READERS and the composition with the "
+         "binary codec -- bounded stand-in over boundary and random values of every type; hence 'other'."),
+   note="Assumed (cross-checked by `vcheck axioms` on boundary and random values): calendar / decimal objects through observer functions with their library ranges; constructor and arithmetic contracts of datetime (time(), date.fromordinal, datetime - datetime, datetime + timedelta, timedelta(microseconds=), replace(tzinfo=utc)); int.to_bytes; int(a / b) == a // b below 2**52; module constants built from literals are evaluated by CPython at verification time.",
+   technique="contract-based deductive verification of the logical-type converters against observer-based specifications (library semantics as assumed contracts); bounded differential checking against independent calendar / decimal arithmetic"),
  "C19": dict(cat="exploration", design="0.3, 0.16, 7/C19",
    text=("Bounded stand-in (labelled bounded, never counted as proved): dependency graphs written one type per file (hand-written and "
          "random DAGs); equality with the inlined schema (canonical form and encodings); load_schema_ordered; every needed file missing. "
